@@ -67,6 +67,11 @@ ALLOC = {
     "closures": "rec let build n f = if n == 0 then f 0 else build (n - 1) (\\x -> f (x + 1))\nbuild %d (\\x -> x)\n",
     "strings": "let string = import! std.string.prim\nrec let build n acc = if n == 0 then string.len acc else build (n - 1) (string.append acc \"ab\")\nbuild %d \"\"\n",
 }
+NEAR_LIMIT = {
+    "array-index": "let array = import! std.array.prim\nrec let build n acc = if n == 0 then acc else build (n - 1) (array.append acc [n])\narray.index (build 12 []) 100000\n",
+    "string-char-at": "let string = import! std.string.prim\nrec let build n acc = if n == 0 then acc else build (n - 1) (string.append acc \"ab\")\nstring.char_at (build 24 \"\") 100000\n",
+    "string-slice": "let string = import! std.string.prim\nrec let build n acc = if n == 0 then acc else build (n - 1) (string.append acc \"é\")\nstring.len (string.slice (build 24 \"\") 1 2)\n",
+}
 RECUR = {
     "nontail": "rec let f n = if n == 0 then 0 else 1 + f (n - 1)\nf %d\n",
     "nontail-mutual": "rec\nlet f n = if n == 0 then 0 else 1 + g (n - 1)\nlet g n = if n == 0 then 0 else 2 + f (n - 1)\nf %d\n",
@@ -139,6 +144,13 @@ def run(tier):
                      "warmup": (tmpl % 1)}
                 meta[j["id"]] = ("alloc", name, (n, lim))
                 jobs.append(j)
+    # ---- a primitive fails while the thread is close to its memory limit: the error must still reach the program
+    # (fine sweep of the room that is left when the failing call is made)
+    for name, src in NEAR_LIMIT.items():
+        for lim in range(3600, 7600, 16 if tier == "quick" else 8):
+            j = {"id": len(jobs), "src": src, "memory_limit_rel": lim, "fresh": True, "warmup": "1 + 1\n"}
+            meta[j["id"]] = ("nearlimit", name, lim)
+            jobs.append(j)
     # ---- interrupt
     spin = "rec let spin n = spin (n + 1)\nspin 0\n"
     for k in range(3):
@@ -196,6 +208,11 @@ def run(tier):
             if r["status"] != "ok" and r.get("class") != "oom":
                 V.violation("alloc:%s:wrong-error:%s" % (what, r.get("class")), "allocation-heavy program under memory limit base+%d failed with %s" % (lim, r["msg"][:200]), rep)
             gc_runs.append(("%s/%d/%d" % (what, n, lim), r["events"], j["src"], rep))
+        elif kind == "nearlimit":
+            if r["status"] == "ok":
+                V.violation("nearlimit:%s:no-error" % what, "the failing primitive call returned %s under memory limit base+%d" % (r["value"], par), rep)
+            elif r.get("class") not in ("oom", "index", "other"):
+                V.violation("nearlimit:%s:wrong-error:%s" % (what, r.get("class")), "under memory limit base+%d: %s" % (par, r["msg"][:200]), rep)
         elif kind == "interrupt":
             if r.get("class") != "interrupted":
                 V.violation("interrupt:not-stopped:%s" % r["status"], "a spinning program did not stop with Interrupted after interrupt(): %s %s" % (r["status"], r["msg"][:200]), rep)
